@@ -80,6 +80,11 @@ func (c *CoreValidator) introspectAccessToken(ctx context.Context, token string,
 	}
 
 	accessRequest.Merge(or)
+	// Merge takes the stored session over by reference, and reading a session may initialise its fields lazily
+	// (e.g. GetExtraClaims, GetExpiresAt): concurrent introspections of one token must not share it.
+	if session := or.GetSession(); session != nil {
+		accessRequest.SetSession(session.Clone())
+	}
 	return nil
 }
 
@@ -98,5 +103,10 @@ func (c *CoreValidator) introspectRefreshToken(ctx context.Context, token string
 	}
 
 	accessRequest.Merge(or)
+	// Merge takes the stored session over by reference, and reading a session may initialise its fields lazily
+	// (e.g. GetExtraClaims, GetExpiresAt): concurrent introspections of one token must not share it.
+	if session := or.GetSession(); session != nil {
+		accessRequest.SetSession(session.Clone())
+	}
 	return nil
 }
